@@ -9,10 +9,10 @@ package main
 // construct (with expected multiplicity); the rest is VIOLATED.
 
 import (
-	"os"
 	"fmt"
 	"go/token"
 	"go/types"
+	"os"
 	"sort"
 	"strings"
 
